@@ -25,7 +25,7 @@ def build(scratch, specs, extra_text=''):
     out = [open(os.path.join(VERIF, 'harness', 'verus_prelude.rs')).read(), 'verus! {\n']
     shas = {}
     # ---- types (verbatim, derive list filtered) ----
-    out.append(extract_type(lexer, 'enum', 'Lexem', keep={'PartialEq'}))
+    out.append(extract_type(lexer, 'enum', 'Lexem', keep=set()))
     out.append(extract_type(ops, 'enum', 'LogicalOp'))
     out.append(extract_type(ops, 'enum', 'Op'))
     out.append(extract_type(ops, 'enum', 'ArithmeticOp'))
@@ -61,6 +61,11 @@ def build(scratch, specs, extra_text=''):
     t, h = splice_fn(func, 'is_boolean_function', 'Function', specs.get('Function::is_boolean_function'))
     out.append(t); shas['Function::is_boolean_function'] = h
     out.append(specs['__function_from_str'])
+    try:
+        t, h = splice_fn(func, 'is_argumentless_function', 'Function', dict(external_body=True, ret='r', ensures=['r == spec_argless(*self)']))
+        out.append(t); shas['Function::is_argumentless_function'] = h
+    except AnchorLost:
+        pass
     out.append('}')
     # ---- Expr constructors (verbatim) ----
     out.append('impl Expr {')
